@@ -157,6 +157,7 @@ def typed_layer(ctx, n_pkgs, n_streams, max_cuts):
     import codec
     import ymodel
     from vlib import coq_bytes
+    crafted_ndjson_cuts(ctx)
     pkgs = codec.build_packages(ctx, n_pkgs, "t", cpp=True, ndjson=True, gen_kwargs={"n_protocols": 2, "steps": (2, 3)})
     rng = ctx.rng
     hcases = []
@@ -178,6 +179,7 @@ def typed_layer(ctx, n_pkgs, n_streams, max_cuts):
                                    {"model": gp.pkg.yaml(), "namespace": gp.pkg.namespace, "protocol": pname, "stream_hex": stream.hex()})
                         continue
                     full_lines = full["out"]
+                    ndjson_cuts(ctx, gp, pname, steps, stream)
                     hl = len(ymodel.enc_header(gp.schemas_[pname]))
                     cuts = set(range(hl, len(stream))) if len(stream) - hl <= max_cuts else set(
                         rng.sample(range(hl, len(stream)), max_cuts))
@@ -300,6 +302,61 @@ def big_payload_layer(ctx, n_cuts):
                                    "%s reader %s on a stream with a >64 KiB value cut at byte %d of %d (protocol %s)"
                                    % (lang, "completed normally" if okk else ("crashed" if crashed else "delivered values that were never written"),
                                       cut, n, pname), {"layer": "big-payload", "reader": lang, "protocol": pname, "cut": cut, "of": n})
+    finally:
+        gp.py_stop()
+
+
+def ndjson_cuts(ctx, gp, pname, steps, stream):
+    """NDJSON streams cut at a line boundary, read by the generated Python reader.  NDJSON has no end marker, so dropping the last items
+    of trailing streams cannot be noticed by any reader; but when a dropped line belongs to a step that is NOT a stream, that step's
+    value is gone and the reader must report it (Python writes a line for every non-stream step, `null` included)."""
+    nd = gp.py_call({"proto": pname, "fin": "binary", "fout": "ndjson", "data": stream.hex(), "mode": "copy"})
+    if not nd["ok"]:
+        return                      # errors of the NDJSON writer are the business of C02
+    lines = [ln for ln in nd["out"].split("\n") if ln]
+    stream_steps = {n for n, _t, st in steps if st}
+    for k in range(1, len(lines)):
+        try:
+            dropped = {next(iter(json.loads(ln).keys())) for ln in lines[k:]}
+        except Exception:  # noqa: BLE001
+            return
+        must_fail = bool(dropped - stream_steps)
+        r = gp.py_call({"proto": pname, "fin": "ndjson", "fout": "binary", "data": "\n".join(lines[:k]) + "\n", "mode": "copy"})
+        ctx.count("ndjson_line_cut", "a non-stream step is lost" if must_fail else "only items of trailing streams are lost")
+        ctx.case(("ndjson-cut", pname, k, nd["out"]), sample={"layer": "typed", "reader": "python ndjson", "protocol": pname, "lines_kept": k,
+                                                              "of": len(lines), "reported_error": not r["ok"], "a_non_stream_step_is_lost": must_fail})
+        if must_fail and r["ok"]:
+            ctx.report("typed:python-ndjson:accepted-truncated", "the python NDJSON reader completed normally on a stream cut after line %d of %d "
+                       "although the lines of the step(s) %s were lost (protocol %s)" % (k, len(lines), sorted(dropped - stream_steps), pname),
+                       {"layer": "typed", "reader": "python ndjson", "model": gp.pkg.yaml(), "namespace": gp.pkg.namespace, "protocol": pname,
+                        "ndjson": nd["out"], "lines_kept": k, "lost_steps": sorted(dropped - stream_steps)})
+
+
+def crafted_ndjson_cuts(ctx):
+    """a protocol whose steps after the first are streams and nullable scalars: the shape in which a lost line is easiest to overlook"""
+    import genrun
+    import ymodel
+    from ymodel import T, prim, Package
+    pkg = Package("Ndc")
+    opt = T("opt", "string?", e=prim("string"))
+    un = T("union", "[null, int32, string]", has_null=True, cases=[prim("int32"), prim("string")], tags=["int32", "string"])
+    steps = [("h", prim("int32"), False), ("s", prim("int32"), True), ("c", opt, False), ("t", prim("float64"), True), ("u", un, False)]
+    pkg.protocols.append(("Pn", steps))
+    gp = genrun.GenPackage(ctx, pkg, "ndcut", ndjson=False, cpp=False)
+    if not gp.generate():
+        raise RuntimeError("yardl rejected the NDJSON-cut package: " + gp.gen_out[-800:])
+    gp.schemas_ = gp.schemas()
+    gp.py_start()
+    try:
+        S = lambda s_: ("str", list(s_.encode()))
+        for c, u in ((("some", S("note")), ("case", 0, ("int", 7))), (("none",), ("none",)), (("some", S("")), ("case", 1, S("x")))):
+            ws = [("int", 5), [[("int", 1), ("int", 2)], [("int", 3)]], c, [[("bits", 0x3FF0000000000000)]], u]
+            try:
+                stream = ymodel.enc_header(gp.schemas_["Pn"]) + ymodel.enc_steps(steps, ws)
+            except Exception:  # noqa: BLE001
+                ws = ymodel.gen_writes(ctx.rng, steps, finite=True, size=2, max_items=3)
+                stream = ymodel.enc_header(gp.schemas_["Pn"]) + ymodel.enc_steps(steps, ws)
+            ndjson_cuts(ctx, gp, "Pn", steps, stream)
     finally:
         gp.py_stop()
 
